@@ -77,3 +77,82 @@ theorem CodeData.beq_symm : ∀ a b : CodeData, CodeData.beq a b = CodeData.beq 
 end
 
 end CDV
+
+namespace CDV
+
+theorem beq_transL {α} [BEq α] [LawfulBEq α] (a b c : α) (h1 : (a == b) = true) (h2 : (b == c) = true) : (a == c) = true := by
+  have := eq_of_beq h1; have := eq_of_beq h2; subst_vars; exact beq_self_eq_true _
+
+mutual
+theorem Const.keyEq_trans : ∀ a b c : Const, Const.keyEq a b = true → Const.keyEq b c = true → Const.keyEq a c = true
+  | .inner a, .inner b, .inner c, h1, h2 => by
+    simp only [Const.keyEq] at h1 h2 ⊢; exact keyEq_trans a b c h1 h2
+  | .code a, .code b, .code c, h1, h2 => by
+    simp only [Const.keyEq] at h1 h2 ⊢; exact CodeData.beq_trans a b c h1 h2
+  | .inner _, .code _, _, h1, _ => by simp [Const.keyEq] at h1
+  | .code _, .inner _, _, h1, _ => by simp [Const.keyEq] at h1
+  | .inner _, .inner _, .code _, _, h2 => by simp [Const.keyEq] at h2
+  | .code _, .code _, .inner _, _, h2 => by simp [Const.keyEq] at h2
+theorem Arg.beq_trans : ∀ a b c : Arg, Arg.beq a b = true → Arg.beq b c = true → Arg.beq a c = true
+  | .raw x, b, c, h1, h2 => by
+    cases b <;> simp [Arg.beq] at h1; subst h1; exact h2
+  | .jump t r, b, c, h1, h2 => by
+    cases b <;> simp [Arg.beq] at h1; obtain ⟨rfl, rfl⟩ := h1; exact h2
+  | .name s o, b, c, h1, h2 => by
+    cases b <;> simp [Arg.beq] at h1; obtain ⟨rfl, rfl⟩ := h1; exact h2
+  | .varname s o, b, c, h1, h2 => by
+    cases b <;> simp [Arg.beq] at h1; obtain ⟨rfl, rfl⟩ := h1; exact h2
+  | .free s, b, c, h1, h2 => by
+    cases b <;> simp [Arg.beq] at h1; subst h1; exact h2
+  | .cell s o, b, c, h1, h2 => by
+    cases b <;> simp [Arg.beq] at h1; obtain ⟨rfl, rfl⟩ := h1; exact h2
+  | .noarg x, b, c, h1, h2 => by
+    cases b <;> simp [Arg.beq] at h1; subst h1; exact h2
+  | .const k o, b, c, h1, h2 => by
+    cases b with
+    | const k' o' =>
+      cases c with
+      | const k'' o'' =>
+        simp only [Arg.beq, Bool.and_eq_true] at h1 h2 ⊢
+        exact ⟨beq_transL o o' o'' h1.1 h2.1, Const.keyEq_trans k k' k'' h1.2 h2.2⟩
+      | _ => simp [Arg.beq] at h2
+    | _ => simp [Arg.beq] at h1
+theorem Instr.beq_trans : ∀ i j k : Instr, Instr.beq i j = true → Instr.beq j k = true → Instr.beq i k = true
+  | .mk op a n l o, .mk op' a' n' l' o', .mk op'' a'' n'' l'' o'', h1, h2 => by
+    simp only [Instr.beq, Bool.and_eq_true] at h1 h2 ⊢
+    exact ⟨⟨⟨⟨beq_transL _ _ _ h1.1.1.1.1 h2.1.1.1.1, Arg.beq_trans a a' a'' h1.1.1.1.2 h2.1.1.1.2⟩, beq_transL _ _ _ h1.1.1.2 h2.1.1.2⟩,
+      beq_transL _ _ _ h1.1.2 h2.1.2⟩, beq_transL _ _ _ h1.2 h2.2⟩
+theorem instrsBeq_trans : ∀ xs ys zs : List Instr, instrsBeq xs ys = true → instrsBeq ys zs = true → instrsBeq xs zs = true
+  | [], [], zs, _, h2 => h2
+  | [], _ :: _, _, h1, _ => by simp [instrsBeq] at h1
+  | _ :: _, [], _, h1, _ => by simp [instrsBeq] at h1
+  | _ :: _, _ :: _, [], _, h2 => by simp [instrsBeq] at h2
+  | x :: xs, y :: ys, z :: zs, h1, h2 => by
+    simp only [instrsBeq, Bool.and_eq_true] at h1 h2 ⊢
+    exact ⟨Instr.beq_trans x y z h1.1 h2.1, instrsBeq_trans xs ys zs h1.2 h2.2⟩
+theorem blocksBeq_trans : ∀ xs ys zs : List (List Instr), blocksBeq xs ys = true → blocksBeq ys zs = true → blocksBeq xs zs = true
+  | [], [], zs, _, h2 => h2
+  | [], _ :: _, _, h1, _ => by simp [blocksBeq] at h1
+  | _ :: _, [], _, h1, _ => by simp [blocksBeq] at h1
+  | _ :: _, _ :: _, [], _, h2 => by simp [blocksBeq] at h2
+  | x :: xs, y :: ys, z :: zs, h1, h2 => by
+    simp only [blocksBeq, Bool.and_eq_true] at h1 h2 ⊢
+    exact ⟨instrsBeq_trans x y z h1.1 h2.1, blocksBeq_trans xs ys zs h1.2 h2.2⟩
+theorem argsBeq_trans : ∀ xs ys zs : List Arg, argsBeq xs ys = true → argsBeq ys zs = true → argsBeq xs zs = true
+  | [], [], zs, _, h2 => h2
+  | [], _ :: _, _, h1, _ => by simp [argsBeq] at h1
+  | _ :: _, [], _, h1, _ => by simp [argsBeq] at h1
+  | _ :: _, _ :: _, [], _, h2 => by simp [argsBeq] at h2
+  | x :: xs, y :: ys, z :: zs, h1, h2 => by
+    simp only [argsBeq, Bool.and_eq_true] at h1 h2 ⊢
+    exact ⟨Arg.beq_trans x y z h1.1 h2.1, argsBeq_trans xs ys zs h1.2 h2.2⟩
+theorem CodeData.beq_trans : ∀ a b c : CodeData, CodeData.beq a b = true → CodeData.beq b c = true → CodeData.beq a c = true
+  | .mk bl f fl n ss tp fv fut ne al aa, .mk bl' f' fl' n' ss' tp' fv' fut' ne' al' aa', .mk bl'' f'' fl'' n'' ss'' tp'' fv'' fut'' ne'' al'' aa'', h1, h2 => by
+    simp only [CodeData.beq, Bool.and_eq_true] at h1 h2 ⊢
+    obtain ⟨⟨⟨⟨⟨⟨⟨⟨⟨⟨a1, a2⟩, a3⟩, a4⟩, a5⟩, a6⟩, a7⟩, a8⟩, a9⟩, a10⟩, a11⟩ := h1
+    obtain ⟨⟨⟨⟨⟨⟨⟨⟨⟨⟨b1, b2⟩, b3⟩, b4⟩, b5⟩, b6⟩, b7⟩, b8⟩, b9⟩, b10⟩, b11⟩ := h2
+    exact ⟨⟨⟨⟨⟨⟨⟨⟨⟨⟨blocksBeq_trans _ _ _ a1 b1, beq_transL _ _ _ a2 b2⟩, beq_transL _ _ _ a3 b3⟩, beq_transL _ _ _ a4 b4⟩, beq_transL _ _ _ a5 b5⟩,
+      beq_transL _ _ _ a6 b6⟩, beq_transL _ _ _ a7 b7⟩, beq_transL _ _ _ a8 b8⟩, beq_transL _ _ _ a9 b9⟩, beq_transL _ _ _ a10 b10⟩, argsBeq_trans _ _ _ a11 b11⟩
+end
+
+end CDV
